@@ -178,11 +178,12 @@ PLANS.update({
 })
 RULES.update({
     "C14": "case = configuration (+ optional ratio set before the first call) + Gaussian pulse at a random input position; the first moment of the whole output stream is compared with n*ratio + output_delay(); "
-           "the README recipe is executed literally on the same stream; trivial = none",
+           "the README recipe is executed literally on the same stream; 12% of the cases read the delay and stream through Box<dyn VecResampler>; trivial = none",
     "C15": "75% kernel cases: Scalar/AVX/SSE interpolators from identical parameters, sinc_len swept over every multiple of 8 up to 512, subindices incl. first/last, slice start offsets 0..8, NaN outside the window, "
            "5 waveform styles (dynamic range 1e600 / 1e60, +-0, denormals); 25% stream cases: one resampler per kernel via new_with_interpolator plus the dispatching constructor over a random history",
     "C18": "case = 4..24 work items (configuration, history, signal, sample type) executed single-threaded (reference, twice) and then by 2/4/8/16 threads taking instances from a shared pool 1..4 calls at a time; "
-           "distinct = distinct (thread count, item count, case) tuples; per-call hashes cover all output bits, counts and getters",
+           "distinct = distinct (thread count, item count, case) tuples; per-call hashes cover all output bits, counts and getters; a third of the items are sent rejected (malformed) calls between their ops, "
+           "a third carry a signal in the subnormal range of their sample type; the calling thread's MXCSR control bits are read before and after every call",
 })
 META.update({
     "C14": dict(technique="runtime monitoring: first-moment (centroid) measurement of a Gaussian pulse through the real stream vs output_delay(), README recipe executed literally",
@@ -191,8 +192,8 @@ META.update({
     "C15": dict(technique="runtime monitoring: direct differential calls of the public Scalar/AVX/SSE kernels against a doubled-precision reference with a sound rounding bound, NaN poisoning outside the window; same workload under ASan and Miri (+avx / +sse3)",
                 text="Exploration. Every kernel value must lie within (L/8+8)*eps*sum|w*s| of the exact dot product, return no NaN when only the outside of the window is NaN, and resamplers built on each kernel (and the dispatching constructor) must produce the same stream; over-reads of more than one element are heap OOB for ASan/Miri.",
                 note="NEON is not compiled on x86_64 (out of reach). Miri +avx runs with Tree Borrows (the wide-load-through-element-reference idiom is flagged by Stacked Borrows only).", design="5/C15"),
-    "C18": dict(technique="runtime monitoring: per-call output hashes of concurrently driven, thread-migrating instances vs a single-threaded reference; ThreadSanitizer and Miri data-race detection on the same workload",
-                text="Exploration. Up to 16 threads construct and drive instances from a shared pool (instances migrate at call boundaries, random yields/spins); every per-call hash must equal the single-threaded reference and neither TSan nor Miri may report a race.",
+    "C18": dict(technique="runtime monitoring: per-call output hashes of concurrently driven, thread-migrating instances vs a single-threaded reference; thread floating-point control word read around every call; ThreadSanitizer and Miri data-race detection on the same workload",
+                text="Exploration. Up to 16 threads construct and drive instances from a shared pool (instances migrate at call boundaries, random yields/spins); every per-call hash must equal the single-threaded reference (also with subnormal-range signals and after rejected calls), no call may leave the calling thread's floating-point control word changed, and neither TSan nor Miri may report a race.",
                 note="Schedules are sampled, not enumerated; evidence reports migrations, distinct (instance,thread) pairs and distinct per-instance thread sequences actually observed; every fourth case is a construction storm (4-16 threads constructing 40-120 small configurations at the same time), 60% of the pool cases carry sibling instances differing in one filter parameter.", design="5/C18"),
 })
 
